@@ -29,6 +29,53 @@ def assert_repo():
 
 
 # ---------------------------------------------------------------------------
+# parser-table cache
+#
+# specs_to_ir builds a ParserFactory per call and 93% of a small compile is ply recomputing the LALR tables of
+# the (constant) grammar.  The cache below makes ParserFactory a per-process singleton whose *real* __init__
+# still runs on every construction, with yacc.yacc() answering from a cache for that singleton only.  Everything
+# __init__ sets (errors, lexer, path, ...) is therefore fresh per compile; only the table construction is shared.
+# VERIF_FRESH_PARSER=1 switches the cache off; checks cross-validate a sample of inputs with and without it
+# (a disagreement is an internal error of the harness, never a violation).
+
+import stone.frontend.parser as _sp
+
+_real_yacc = _sp.yacc.yacc
+_yacc_cache = {}
+_singleton = []
+_cache_on = [False]
+
+
+def _cached_yacc(*a, **kw):
+    module = kw.get('module')
+    if _cache_on[0] and isinstance(module, _sp.ParserFactory) and _singleton and module is _singleton[0]:
+        key = tuple(sorted((k, repr(v)) for k, v in kw.items() if k != 'module'))
+        if key not in _yacc_cache:
+            _yacc_cache[key] = _real_yacc(*a, **kw)
+        return _yacc_cache[key]
+    return _real_yacc(*a, **kw)
+
+
+def _singleton_new(cls, *a, **kw):
+    if not _cache_on[0] or cls is not _sp.ParserFactory:
+        return object.__new__(cls)
+    if not _singleton:
+        _singleton.append(object.__new__(cls))
+    return _singleton[0]
+
+
+def enable_parser_cache(on=True):
+    if os.environ.get('VERIF_FRESH_PARSER') == '1':
+        on = False
+    _cache_on[0] = on
+    _sp.yacc.yacc = _cached_yacc
+    _sp.ParserFactory.__new__ = staticmethod(_singleton_new)
+
+
+enable_parser_cache(True)
+
+
+# ---------------------------------------------------------------------------
 # compile
 
 
@@ -51,7 +98,36 @@ class Compiled:
         return 'escape:%s@%s<-%s' % (self.exc_type, self.inner, self.entry)
 
 
+def compile_specs_fresh(specs, **kw):
+    """Same as compile_specs with the parser-table cache switched off (cross-validation of the cache)."""
+    old = _cache_on[0]
+    _cache_on[0] = False
+    try:
+        return compile_specs(specs, **kw)
+    finally:
+        _cache_on[0] = old
+
+
+CROSS_VALIDATED = [0]
+
+
 def compile_specs(specs, **kw):
+    out = _compile_specs(specs, **kw)
+    if _cache_on[0] and 'route_whitelist_filter' not in kw:
+        import zlib
+        if zlib.crc32('\x00'.join(t for _, t in specs).encode('utf-8', 'replace')) % 97 == 0:
+            _cache_on[0] = False
+            try:
+                ref = _compile_specs(specs, **kw)
+            finally:
+                _cache_on[0] = True
+            CROSS_VALIDATED[0] += 1
+            if ref.brief() != out.brief():
+                raise InternalError('parser-table cache changes the outcome: %r vs %r for %r' % (out.brief(), ref.brief(), specs))
+    return out
+
+
+def _compile_specs(specs, **kw):
     try:
         api = specs_to_ir([(p, t) for p, t in specs], **kw)
         return Compiled('ok', api=api)
